@@ -307,7 +307,7 @@ func TestRandomInput(t *testing.T) {
 	}
 	rec := ev.New(t, prop, "random-input",
 		"rapid: a side (client/server) reads either arbitrary bytes (0..40) or the correct 15 bytes with 1..4 random byte edits (overwrite/insert/delete) and an optional tail, at a random fragmentation and write limit; same oracle as the enumeration. Non-trivial: the first three bytes are the correct magic number and the input is at least 15 bytes long (the verdict depends on the version words)")
-	ev.Check(t, rec, 3000, 3000000, func(rt *rapid.T) {
+	ev.Check(t, rec, 30000, 3000000, func(rt *rapid.T) {
 		side := rapid.SampledFrom([]string{"client", "server"}).Draw(rt, "side")
 		good := expectedInput(side)
 		var in []byte
